@@ -5,6 +5,7 @@ package main
 import (
 	"fmt"
 	"go/constant"
+	"go/token"
 	"go/types"
 	"sort"
 	"strings"
@@ -78,6 +79,12 @@ func (m *Model) RunBuiltinRules(s *Sink, ruleArg, ruleUTF, ruleSib string) {
 				}
 			}
 		}
+	}
+	// ... and the check is made whenever the argument was passed: no path to a successful return goes round the
+	// assertion of args[i] unless the conditions on that path say that there are at most i arguments (an early return
+	// placed before the kind check accepts an argument of the wrong kind silently)
+	for _, fn := range fns {
+		m.argCheckOrder(s, ruleArg, fn)
 	}
 	// UTF-8: no byte-offset cut or byte index of a string in the builtins
 	nStr := 0
@@ -416,4 +423,258 @@ func (m *Model) missIsError(okv ssa.Value, depth int) bool {
 		}
 	}
 	return n > 0
+}
+
+// argCheckOrder: see RunBuiltinRules. fn has a parameter that is the argument list ([]object.Object); for every
+// comma-ok assertion of args[i] with a constant i (in fn itself, or in a helper that is handed the list and a constant
+// position) every path from the entry to a return with a nil error passes the assertion, or carries conditions from
+// which len(args) <= i follows.
+func (m *Model) argCheckOrder(s *Sink, rule string, fn *ssa.Function) {
+	var argsPar *ssa.Parameter
+	for _, p := range fn.Params {
+		if sl, ok := p.Type().Underlying().(*types.Slice); ok && strings.HasSuffix(sl.Elem().String(), "object.Object") {
+			argsPar = p
+		}
+	}
+	if argsPar == nil || fn.Blocks == nil {
+		return
+	}
+	res := fn.Signature.Results()
+	errIdx := -1
+	for i := 0; i < res.Len(); i++ {
+		if isErrorLike(res.At(i).Type()) {
+			errIdx = i
+		}
+	}
+	if errIdx < 0 {
+		return
+	}
+	type site struct {
+		idx   int64
+		block *ssa.BasicBlock
+		pos   string
+	}
+	var sites []site
+	for _, b := range fn.Blocks {
+		for _, in := range b.Instrs {
+			switch x := in.(type) {
+			case *ssa.TypeAssert:
+				if !x.CommaOk {
+					continue
+				}
+				if ld, ok := x.X.(*ssa.UnOp); ok {
+					if ia, ok := ld.X.(*ssa.IndexAddr); ok && ia.X == ssa.Value(argsPar) {
+						if k, isK := ia.Index.(*ssa.Const); isK && k.Value != nil {
+							sites = append(sites, site{k.Int64(), b, m.InstrPos(x)})
+						}
+					}
+				}
+			case *ssa.Call:
+				// a helper handed the list and a constant position that asserts args[pos]
+				sc := x.Call.StaticCallee()
+				if sc == nil || !m.InModule(sc) || sc.Blocks == nil {
+					continue
+				}
+				listAt, posAt := -1, -1
+				for ai, a := range x.Call.Args {
+					if a == ssa.Value(argsPar) {
+						listAt = ai
+					}
+				}
+				if listAt < 0 || listAt >= len(sc.Params) {
+					continue
+				}
+				for _, hb := range sc.Blocks {
+					for _, hin := range hb.Instrs {
+						ta, ok := hin.(*ssa.TypeAssert)
+						if !ok || !ta.CommaOk {
+							continue
+						}
+						if ld, ok := ta.X.(*ssa.UnOp); ok {
+							if ia, ok := ld.X.(*ssa.IndexAddr); ok && ia.X == ssa.Value(sc.Params[listAt]) {
+								if pp, isP := ia.Index.(*ssa.Parameter); isP {
+									for pi, q := range sc.Params {
+										if q == pp {
+											posAt = pi
+										}
+									}
+								}
+							}
+						}
+					}
+				}
+				if posAt >= 0 && posAt < len(x.Call.Args) {
+					if k, isK := x.Call.Args[posAt].(*ssa.Const); isK && k.Value != nil {
+						sites = append(sites, site{k.Int64(), b, m.InstrPos(x)})
+					}
+				}
+			}
+		}
+	}
+	if len(sites) == 0 {
+		return
+	}
+	a := m.NewArith(fn)
+	lenForm := a.lenLin(argsPar, 0)
+	for _, st := range sites {
+		key := fmt.Sprintf("%s|argument %d is checked on every path that returns a value", fnKey(fn), st.idx)
+		bad := ""
+		nPaths := 0
+		var walk func(b *ssa.BasicBlock, onPath map[*ssa.BasicBlock]bool, facts []Fact)
+		walk = func(b *ssa.BasicBlock, onPath map[*ssa.BasicBlock]bool, facts []Fact) {
+			if bad != "" || nPaths > 4000 || b == st.block || onPath[b] {
+				return
+			}
+			if ret, isRet := b.Instrs[len(b.Instrs)-1].(*ssa.Return); isRet {
+				nPaths++
+				if errIdx < len(ret.Results) && isNilConst(retSource(ret, errIdx)) {
+					// a value is returned: the argument must be absent on this path
+					ef := expandFacts(facts)
+					ineqs := a.ineqsFrom(ef)
+					if !a.proveLE(lenForm, st.idx, ineqs, 3) && !lenPathInfeasible(a, lenForm, ef) {
+						bad = m.InstrPos(ret)
+					}
+				}
+				return
+			}
+			onPath[b] = true
+			for _, sb := range b.Succs {
+				walk(sb, onPath, append(append([]Fact{}, facts...), edgeFact(b, sb)...))
+			}
+			delete(onPath, b)
+		}
+		walk(fn.Blocks[0], map[*ssa.BasicBlock]bool{}, nil)
+		switch {
+		case nPaths > 4000:
+			s.Undecided(rule, key, st.pos, "too many paths in %s", fnKey(fn))
+		case bad != "":
+			s.Violation(rule, key, st.pos, "%s can return a value (at %s) without having checked the kind of argument %d although that argument may have been passed: the return comes before the check at %s, so an argument of the wrong kind is accepted silently for some receivers", fnKey(fn), bad, st.idx, st.pos)
+		default:
+			s.OK(rule, key, st.pos, "every path to a return with a nil error passes the check, or implies len(args) <= %d", st.idx)
+		}
+	}
+}
+
+// RunNameCuts — R-UTF8 (names): the evaluator cuts a property name only on a character boundary. A name is cut when
+// the first letter of a field name is upper-cased for the fallback lookup (`user.name` finds the Go field `Name`);
+// cut after one byte, a name whose first letter is not ASCII (`élan` for the field `Élan`) is never found. Every slice
+// of a string in the evaluator's own functions (the built-ins are judged by the same rule in C11) has bounds that come
+// from a search, a length, a rune decoding or are 0.
+func (m *Model) RunNameCuts(s *Sink, rule string) {
+	builtin := map[*ssa.Function]bool{}
+	bfns, _ := m.builtinClosure()
+	for _, f := range bfns {
+		builtin[f] = true
+	}
+	charSafe := func(v ssa.Value) bool {
+		if boundIsCharSafe(v) {
+			return true
+		}
+		// the size utf8.DecodeRuneInString / DecodeLastRuneInString report
+		if ex, ok := v.(*ssa.Extract); ok && ex.Index == 1 {
+			if c, isC := ex.Tuple.(*ssa.Call); isC && c.Call.StaticCallee() != nil && strings.HasPrefix(fnFullName(c.Call.StaticCallee()), "unicode/utf8.Decode") {
+				return true
+			}
+		}
+		if c, ok := v.(*ssa.Call); ok && c.Call.StaticCallee() != nil && strings.HasPrefix(fnFullName(c.Call.StaticCallee()), "unicode/utf8.RuneLen") {
+			return true
+		}
+		return false
+	}
+	n := 0
+	for _, fn := range m.reachableFns(m.Roots().Render) {
+		if fn.Blocks == nil || shortPkg(fnPkgPath(fn)) != "evaluator" || builtin[fn] {
+			continue
+		}
+		cnt := 0
+		for _, b := range fn.Blocks {
+			for _, in := range b.Instrs {
+				x, ok := in.(*ssa.Slice)
+				if !ok || !isStringT(x.X.Type()) || (x.Low == nil && x.High == nil) {
+					continue
+				}
+				n++
+				cnt++
+				key := fmt.Sprintf("%s|no byte-offset cut of %s", fnKey(fn), valueDesc(x.X))
+				if cnt > 1 {
+					key = fmt.Sprintf("%s #%d", key, cnt)
+				}
+				if charSafe(x.Low) && charSafe(x.High) {
+					s.OK(rule, key, m.InstrPos(x), "the bounds lie on character boundaries")
+				} else {
+					s.Violation(rule, key, m.InstrPos(x), "%s slices the string %s at a byte offset that is not known to be a character boundary: a name that starts with a multi-byte letter is cut inside that letter (an index with the name élan never finds the field Élan, although name finds Name)", fnKey(fn), valueDesc(x.X))
+				}
+			}
+		}
+	}
+	if n == 0 {
+		s.OK(rule, "evaluator|no string is cut by byte offsets", "-", "no string slice expression in the evaluator's own functions")
+	}
+}
+
+// lenPathInfeasible: the comparisons of len(args) with constants collected along a path contradict each other
+// (`case 1, 2:` entered through `len == 2` and then the false side of a second `len == 2`).
+func lenPathInfeasible(a *Arith, lenForm Lin, facts []Fact) bool {
+	lo, hi := int64(0), int64(1<<40)
+	excluded := map[int64]bool{}
+	isLen := func(v ssa.Value) bool {
+		l := a.lin(v)
+		return l.C == 0 && l.String() == lenForm.String()
+	}
+	for _, f := range facts {
+		bo, ok := f.Cond.(*ssa.BinOp)
+		if !ok {
+			continue
+		}
+		op := bo.Op
+		var k *ssa.Const
+		switch {
+		case isLen(bo.X):
+			k, _ = bo.Y.(*ssa.Const)
+		case isLen(bo.Y):
+			k, _ = bo.X.(*ssa.Const)
+			op = map[token.Token]token.Token{token.LSS: token.GTR, token.GTR: token.LSS, token.LEQ: token.GEQ, token.GEQ: token.LEQ, token.EQL: token.EQL, token.NEQ: token.NEQ}[op]
+		}
+		if k == nil || k.Value == nil || k.Value.Kind() != constant.Int {
+			continue
+		}
+		c := k.Int64()
+		if !f.Holds {
+			op = map[token.Token]token.Token{token.LSS: token.GEQ, token.GEQ: token.LSS, token.LEQ: token.GTR, token.GTR: token.LEQ, token.EQL: token.NEQ, token.NEQ: token.EQL}[op]
+		}
+		switch op {
+		case token.EQL:
+			if c > lo {
+				lo = c
+			}
+			if c < hi {
+				hi = c
+			}
+		case token.NEQ:
+			excluded[c] = true
+		case token.LSS:
+			if c-1 < hi {
+				hi = c - 1
+			}
+		case token.LEQ:
+			if c < hi {
+				hi = c
+			}
+		case token.GTR:
+			if c+1 > lo {
+				lo = c + 1
+			}
+		case token.GEQ:
+			if c > lo {
+				lo = c
+			}
+		}
+	}
+	for lo <= hi && excluded[lo] {
+		lo++
+	}
+	for hi >= lo && excluded[hi] {
+		hi--
+	}
+	return lo > hi
 }
